@@ -16,12 +16,14 @@ package proxy
 //           invariants evaluated at EVERY scheduling point at which the registry lock is free.
 
 import (
+	"errors"
 	"fmt"
 	"hash/fnv"
 	"sort"
 	"strings"
 	"testing"
 
+	"go.minekube.com/gate/pkg/edition/java/proto/version"
 	"go.minekube.com/gate/pkg/edition/java/proxy/zzverif/sched"
 	"go.minekube.com/gate/pkg/edition/java/proxy/zzverif/schedrun"
 	"go.minekube.com/gate/pkg/edition/java/proxy/zzverif/vrt"
@@ -46,7 +48,12 @@ type c11Cfg struct {
 	online, kick bool
 }
 
-var c11Cfgs = []c11Cfg{{"offline", false, false}, {"online", true, false}, {"online-kick", true, true}}
+// offline-kick: OnlineModeKickExistingPlayers=true with OnlineMode=false. canRegisterConnection then still
+// checks for duplicates (it only skips the check when BOTH flags are set) while registerConnection takes its
+// kick branch (it looks at the kick flag alone). The statement's name-uniqueness clause is conditional on
+// kicking being disabled, so this configuration gets the kick-mode oracle (UUID uniqueness, count, nobody
+// evicted, an older same-UUID session is disconnected before a new one holds the UUID).
+var c11Cfgs = []c11Cfg{{"offline", false, false}, {"online", true, false}, {"online-kick", true, true}, {"offline-kick", false, true}}
 
 // c11Check carries the per-execution observation state of the oracle.
 type c11Check struct {
@@ -301,14 +308,7 @@ func c11RunHistory(cfg c11Cfg, ops []string) (fails map[string]*sched.Failure, o
 		for _, op := range ops {
 			var k int
 			fmt.Sscanf(op[1:], "%d", &k)
-			switch op[0] {
-			case 'L':
-				w.newSession(c11Idents[k].name, c11Idents[k].id, false).login()
-			case 'D':
-				w.newSession(c11Idents[k].name, c11Idents[k].id, true).login()
-			case 'X':
-				w.sessions[k].disconnect()
-			}
+			c11Apply(w, op[0], k)
 		}
 		x.AtEnd(func() {
 			ck.inv(true)
@@ -324,7 +324,75 @@ func c11RunHistory(cfg c11Cfg, ops []string) (fails map[string]*sched.Failure, o
 	return res.Failures, open, nSessions, outcome
 }
 
-func c11Seq(r *vrt.R, depth int) {
+// c11Apply performs one operation of a sequential history:
+//
+//	L<i> login of identity i                     D<i> login denied by a LoginEvent subscriber
+//	X<k> the client of session k goes away       (these three form family "seq")
+//	W<i> login over a connection whose writes fail: the player is registered, then LoginSuccess cannot be
+//	     written, the connection closes itself and the teardown has to take the registration back
+//	E<i> the client connection is closed WHILE the LoginEvent is fired (login cancelled by the user)
+//	V<i> login of a pre-1.20.2 client (1.19.4): the login runs on into the initial-connect handler, finds
+//	     no server and disconnects the player - teardown through initialConnectSessionHandler
+//	A<k> session k acknowledges the login (1.20.2+): configuration handler, no server, player disconnected
+//	     by the proxy - teardown through clientConfigSessionHandler
+func c11Apply(w *g5World, kind byte, k int) {
+	id := func() c11Ident { return c11Idents[k] }
+	switch kind {
+	case 'L':
+		w.newSession(id().name, id().id, false).login()
+	case 'D':
+		w.newSession(id().name, id().id, true).login()
+	case 'W':
+		s := w.newSession(id().name, id().id, false)
+		s.base.failWrites(errC11Gone)
+		s.login()
+	case 'E':
+		s := w.newSession(id().name, id().id, false)
+		s.goneDuringLoginEvent()
+		s.login()
+	case 'V':
+		s := w.newSession(id().name, id().id, false)
+		s.mc.SetProtocol(version.Minecraft_1_19_4.Protocol)
+		s.login()
+	case 'X':
+		w.sessions[k].disconnect()
+	case 'A':
+		w.sessions[k].acknowledge()
+	default:
+		panic("c11: unknown op " + string(kind))
+	}
+}
+
+var errC11Gone = errors.New("write: broken pipe")
+
+// alphabets of the two sequential families (open = sessions that are logged in and connected)
+func c11OpsSeq(open []int) []string {
+	var o []string
+	for _, kind := range "LD" {
+		for i := range c11Idents {
+			o = append(o, fmt.Sprintf("%c%d", kind, i))
+		}
+	}
+	for _, k := range open {
+		o = append(o, fmt.Sprintf("X%d", k))
+	}
+	return o
+}
+
+func c11OpsSeqx(open []int) []string {
+	var o []string
+	for _, kind := range "LWEV" {
+		for i := range c11Idents {
+			o = append(o, fmt.Sprintf("%c%d", kind, i))
+		}
+	}
+	for _, k := range open {
+		o = append(o, fmt.Sprintf("X%d", k), fmt.Sprintf("A%d", k))
+	}
+	return o
+}
+
+func c11Seq(r *vrt.R, fam string, depth int, alphabet func(open []int) []string) {
 	for _, cfg := range c11Cfgs {
 		n := 0
 		var rec func(h []string)
@@ -335,7 +403,7 @@ func c11Seq(r *vrt.R, depth int) {
 			mine := true
 			if len(h) >= 2 {
 				hh := fnv.New32a()
-				hh.Write([]byte(h[0] + h[1]))
+				hh.Write([]byte(fam + h[0] + h[1]))
 				mine = r.Mine(int(hh.Sum32() % 1024))
 				if !mine {
 					return // the whole subtree below a 2-op prefix belongs to one shard
@@ -352,6 +420,9 @@ func c11Seq(r *vrt.R, depth int) {
 				r.Transitions(len(h))
 				r.Traces(1)
 				r.Distinct("seq|" + cfg.name + "|" + outcome)
+				for _, op := range h {
+					r.Class("op:" + op[:1])
+				}
 				if len(h) == 3 {
 					r.Sample(map[string]any{"cfg": cfg.name, "history": append([]string{}, h...), "outcome": outcome})
 				}
@@ -361,41 +432,50 @@ func c11Seq(r *vrt.R, depth int) {
 				}
 				sort.Strings(keys)
 				for _, k := range keys {
-					r.Violation("seq/"+cfg.name+"/"+k, fmt.Sprintf("sequential history %v in configuration %s (L<i>=login of identity i, D<i>=login denied by a LoginEvent subscriber, X<k>=disconnect of session k; identities 0=bob/U1 1=BOB/U1 2=Bob/U2 3=eve/U1)\n%s", h, cfg.name, fails[k].Desc),
+					r.Violation("seq/"+cfg.name+"/"+k, fmt.Sprintf("sequential history %v in configuration %s (L<i>=login of identity i, D<i>=login denied by a LoginEvent subscriber, X<k>=disconnect of session k, W<i>=login over a connection whose writes fail, E<i>=client gone during the LoginEvent, V<i>=login of a 1.19.4 client (ends in the no-server disconnect), A<k>=session k acknowledges the login (ends in the no-server disconnect); identities 0=bob/U1 1=BOB/U1 2=Bob/U2 3=eve/U1)\n%s", h, cfg.name, fails[k].Desc),
 						c11Replay{History: append([]string{}, h...), Cfg: cfg.name})
 				}
 			}
 			if len(fails) > 0 || len(h) >= depth {
 				return // a failing history is not extended: its continuation is past the first violation
 			}
-			for i := range c11Idents {
-				rec(append(append([]string{}, h...), fmt.Sprintf("L%d", i)))
-			}
-			for i := range c11Idents {
-				rec(append(append([]string{}, h...), fmt.Sprintf("D%d", i)))
-			}
-			for _, k := range open {
-				rec(append(append([]string{}, h...), fmt.Sprintf("X%d", k)))
+			for _, op := range alphabet(open) {
+				rec(append(append([]string{}, h...), op))
 			}
 		}
 		rec(nil)
-		r.ClassN("seq:"+cfg.name, n)
+		r.ClassN(fam+":"+cfg.name, n)
 	}
 }
 
 // ---------------------------------------------------------------- concurrent scenarios
 
 type c11Op struct {
-	kind byte // 'L' login, 'D' denied login, 'X' disconnect pre-established session k, 'l' login then disconnect
+	// 'L' login, 'D' denied login, 'l' login then disconnect, 'W' login over a connection whose writes fail,
+	// 'E' login whose client goes away during the LoginEvent, 'V' login of a 1.19.4 client,
+	// 'P' login of the up-front created (pending) session k, 'X' disconnect of session k,
+	// 'A' session k acknowledges the login (-> no-server disconnect through the configuration handler)
+	kind byte
 	k    int
 }
 
+// c11Scenario: pre = identities logged in before the threads start (sessions 0..), pending = identities
+// whose sessions are created but NOT yet logged in (the next session indices): a thread logs such a
+// session in ('P') while another thread may close that very connection ('X') - a disconnect that races
+// with the session's own login.
 func c11Scenario(name string, cfg c11Cfg, pre []int, threads [][]c11Op, quick, thorough int) schedrun.Scenario {
+	return c11ScenarioP(name, cfg, pre, nil, threads, quick, thorough)
+}
+
+func c11ScenarioP(name string, cfg c11Cfg, pre, pending []int, threads [][]c11Op, quick, thorough int) schedrun.Scenario {
 	return schedrun.Scenario{Name: "conc/" + cfg.name + "/" + name, Quick: quick, Thorough: thorough, Body: func(x *sched.X) {
 		w := g5NewWorld(cfg.online, cfg.kick)
 		ck := newC11Check(w, cfg.kick, x.Fail)
 		for _, i := range pre {
 			w.newSession(c11Idents[i].name, c11Idents[i].id, false).login()
+		}
+		for _, i := range pending {
+			w.newSession(c11Idents[i].name, c11Idents[i].id, false)
 		}
 		ck.inv(false)
 		// sessions are created up front (deterministic indices); threads only drive them
@@ -409,12 +489,22 @@ func c11Scenario(name string, cfg c11Cfg, pre []int, threads [][]c11Op, quick, t
 			for _, op := range t {
 				st := step{op: op}
 				switch op.kind {
-				case 'L', 'l':
+				case 'L', 'l', 'W', 'E', 'V':
 					st.s = w.newSession(c11Idents[op.k].name, c11Idents[op.k].id, false)
 				case 'D':
 					st.s = w.newSession(c11Idents[op.k].name, c11Idents[op.k].id, true)
-				case 'X':
+				case 'X', 'A', 'P':
 					st.s = w.sessions[op.k]
+				default:
+					panic("c11: unknown op")
+				}
+				switch op.kind {
+				case 'W':
+					st.s.base.failWrites(errC11Gone)
+				case 'E':
+					st.s.goneDuringLoginEvent()
+				case 'V':
+					st.s.mc.SetProtocol(version.Minecraft_1_19_4.Protocol)
 				}
 				pl = append(pl, st)
 			}
@@ -425,7 +515,7 @@ func c11Scenario(name string, cfg c11Cfg, pre []int, threads [][]c11Op, quick, t
 			x.Go(fmt.Sprintf("t%d", ti+1), func() {
 				for _, st := range pl {
 					switch st.op.kind {
-					case 'L', 'D':
+					case 'L', 'D', 'W', 'E', 'V', 'P':
 						st.s.login()
 					case 'l':
 						st.s.login()
@@ -434,6 +524,8 @@ func c11Scenario(name string, cfg c11Cfg, pre []int, threads [][]c11Op, quick, t
 						}
 					case 'X':
 						st.s.disconnect()
+					case 'A':
+						st.s.acknowledge()
 					}
 				}
 			})
@@ -446,11 +538,16 @@ func c11Scenario(name string, cfg c11Cfg, pre []int, threads [][]c11Op, quick, t
 }
 
 func c11Scenarios() []schedrun.Scenario {
-	off, on, kick := c11Cfgs[0], c11Cfgs[1], c11Cfgs[2]
+	off, on, kick, offkick := c11Cfgs[0], c11Cfgs[1], c11Cfgs[2], c11Cfgs[3]
 	L := func(i int) c11Op { return c11Op{'L', i} }
 	D := func(i int) c11Op { return c11Op{'D', i} }
 	X := func(k int) c11Op { return c11Op{'X', k} }
 	l := func(i int) c11Op { return c11Op{'l', i} }
+	W := func(i int) c11Op { return c11Op{'W', i} }
+	E := func(i int) c11Op { return c11Op{'E', i} }
+	V := func(i int) c11Op { return c11Op{'V', i} }
+	A := func(k int) c11Op { return c11Op{'A', k} }
+	P := func(k int) c11Op { return c11Op{'P', k} }
 	return []schedrun.Scenario{
 		// two simultaneous logins colliding by UUID+name / name only / UUID only
 		c11Scenario("2logins-same-uuid-name-variant", off, nil, [][]c11Op{{L(0)}, {L(1)}}, 2, 4),
@@ -467,6 +564,23 @@ func c11Scenarios() []schedrun.Scenario {
 		c11Scenario("established-leaves-vs-newcomer", kick, []int{0}, [][]c11Op{{X(0)}, {L(1)}}, 2, 4),
 		c11Scenario("denied-duplicate-vs-name-collider", kick, []int{0}, [][]c11Op{{D(1)}, {l(2)}}, 2, 4),
 		c11Scenario("name-replaced-then-leaves", kick, []int{0}, [][]c11Op{{l(2)}, {L(2)}}, 1, 3),
+		// kick flag without online mode: both logins pass canRegisterConnection's duplicate check (nobody is
+		// registered yet) and then meet in registerConnection's kick branch
+		c11Scenario("2logins-same-uuid-name-variant", offkick, nil, [][]c11Op{{L(0)}, {L(1)}}, 2, 4),
+		c11Scenario("3logins-same-uuid", offkick, nil, [][]c11Op{{L(0)}, {L(1)}, {L(3)}}, 1, 3),
+		c11Scenario("login-logout-vs-login-same-name-other-uuid", offkick, nil, [][]c11Op{{l(0)}, {L(2)}}, 2, 4),
+		// failed logins next to a colliding login: registered-then-write-fails, client gone during the
+		// LoginEvent, pre-1.20.2 client that runs into the no-server disconnect
+		c11Scenario("write-fails-after-register-vs-duplicate-login", off, nil, [][]c11Op{{W(0)}, {L(1)}}, 2, 4),
+		c11Scenario("established-leaves-vs-newcomer-whose-write-fails", kick, []int{0}, [][]c11Op{{X(0)}, {W(1)}}, 2, 4),
+		c11Scenario("gone-during-login-event-vs-duplicate-login", off, nil, [][]c11Op{{E(0)}, {L(1)}}, 2, 4),
+		c11Scenario("legacy-login-vs-duplicate-login", off, nil, [][]c11Op{{V(0)}, {L(1)}}, 2, 4),
+		c11Scenario("acknowledge-no-server-vs-duplicate-login", off, []int{0}, [][]c11Op{{A(0)}, {L(1)}}, 2, 4),
+		c11Scenario("acknowledge-no-server-vs-newcomer", kick, []int{0}, [][]c11Op{{A(0)}, {L(1)}}, 2, 4),
+		// the connection is closed from another goroutine while its own login is still completing
+		c11ScenarioP("login-vs-own-disconnect", off, nil, []int{0}, [][]c11Op{{P(0)}, {X(0)}}, 3, 5),
+		c11ScenarioP("login-vs-own-disconnect", kick, []int{0}, []int{1}, [][]c11Op{{P(1)}, {X(1)}}, 2, 4),
+		c11ScenarioP("login-vs-own-disconnect-vs-duplicate-login", off, nil, []int{0}, [][]c11Op{{P(0)}, {X(0)}, {L(1)}}, 1, 3),
 	}
 }
 
@@ -491,7 +605,8 @@ func TestVerif(t *testing.T) {
 			if r.Thorough() {
 				depth = 5
 			}
-			c11Seq(r, depth)
+			c11Seq(r, "seq", depth, c11OpsSeq)
+			c11Seq(r, "seqx", depth-1, c11OpsSeqx)
 		}
 		schedrun.Run(r, c11Scenarios())
 	})
